@@ -277,6 +277,11 @@ def mon_c14(c):
         o = parse_list(c.obs.get(tag, '-'), ' ')
         if not respects(o, n, e):
             return '%s order %s is not a dependency order of the built graph' % (tag, o)
+    for tag in ('PM1', 'PM2', 'PM3', 'PM4'):
+        if tag in c.obs:
+            o = parse_list(c.obs[tag], ' ')
+            if not respects(o, n, e):
+                return 'traversal after a partially consumed map()/iter() (%s) visited %s: not every function once in dependency order' % (tag, o)
     o = parse_list(c.obs.get('TR', '-'), ' ')
     if not respects(o, n, [(b, a, k) for (a, b, k) in e]):
         return 'iter_rev order %s is not a reverse dependency order' % o
